@@ -32,6 +32,7 @@ ASSUMPTIONS = [
 SHARDS = {"quick": 6, "thorough": 16}
 MIN_REACH = {
     "points_selected": {"quick": 2500, "thorough": 60000},
+    "sweeps_of_a_thousand_and_more_settings": {"quick": 3, "thorough": 8},
     "df_rows_checked": {"quick": 400, "thorough": 5000},
     "calls_logged": {"quick": 3000, "thorough": 30000},
     "second_runs_on_same_runner": {"quick": 15, "thorough": 300},
@@ -127,6 +128,17 @@ def cases(ctx):
         c["combos"] = [["a", list(range(17 + i % 4))], ["b", [0.5 * j for j in range(16)]]]
         c["exec"] = ["threadpool", "fake_submit", "fake_apply"][i % 3]
         c["big"] = True
+        yield c
+    # sweeps of a thousand and more settings (1023, 1763, 1101: no multiples of a round chunk) run sequentially, in order
+    # and shuffled: long runs are where progress reporting / chunking shortcuts live
+    for i in range(ctx.pick(4, 12)):
+        c = _gen(rng, ["combo_to_ds", "combo_to_df", "runner_combos", "runner_combos_df"][i % 4])
+        while c["xobj"]:
+            c = _gen(rng, c["entry"])
+        na, nb = [(33, 31), (41, 43), (1101, 1)][i % 3]
+        c["combos"] = [["a", list(range(na))], ["b", [0.5 * j for j in range(nb)]]]
+        c["shuffle"] = [False, True, 11][i % 3] if i % 2 else [True, False, 5][i % 3]
+        c["long"] = True
         yield c
     # to_df x shuffle on purpose (row/result pairing under a permutation)
     for i in range(ctx.pick(40, 400)):
@@ -244,6 +256,8 @@ def run_case(ctx, case):
     is_df = entry.endswith("_df")
     use_cases = "case" in entry
     rs = case["perm_seed"]
+    if case.get("long"):
+        ctx.count("sweeps_of_a_thousand_and_more_settings")
 
     # ------------------------------------------------------------------ inputs
     if use_cases:
